@@ -202,7 +202,7 @@ SECOND_SOLVERS = (("z3-4.8.12", ["/usr/bin/z3", "-T:20"]), ("cvc5-1.0", ["cvc5",
 
 
 def second_opinion(ctx, prop, what):
-    """z3 (Python API) just answered unsat for path /\ not prop. Dump that query as SMT-LIB2 and ask the other installed
+    """z3 (Python API) just answered unsat for `path and not prop`. Dump that query as SMT-LIB2 and ask the other installed
     solvers. `sat` from any of them is a disagreement (reported as a harness error by the framework); unknown / timeout /
     parse errors (z3-specific syntax) are counted as inconclusive samples."""
     import random as _random
